@@ -6,6 +6,12 @@ Oracle for C12.  Case lines (first token):
     peer wrote back to back arrive together); default: one record per transport read
 `cancel side=… k=<n> ops=<op>,…`  =>  `res=<handshake result>,<r>,… fired=0|1`
 `early side=… j=<n> len=<n> injected=0|1 first=0|1 afterccs=0|1`  =>  `res=<handshake result>,<R8>,<H>,<W1>`
+`dial nd=none|to|dl|both|shortto|shortdl stall=accept|hello|partial caller=cancel|deadline|pre|never`  =>  `res=<class> when=prompt|late`
+    `Dialer.DialContext` over loopback TCP to a peer that accepts and stalls (never reads / reads the
+    ClientHello / then writes part of a handshake record); nd = the net.Dialer has no bound / a 30 s
+    Timeout / Deadline / both / a 200 ms Timeout / Deadline; caller = its context is cancelled 50 ms
+    after the peer began to stall / has a 300 ms deadline / was cancelled before the call / never ends;
+    class = ctx | ctxdl | timeout (with caller=never: any timeout error) | ok | blocked | <err>; when = returned within 2 s of that moment
 
 op  = R<n> W<n> C CW H                        API calls on the connection under test
       pd<n> ph<n> pa<level>.<desc> pc         the peer writes a data / handshake-type / alert record, close_notify
@@ -276,6 +282,33 @@ def judgeEarly (ct ot : List String) : Option Verdict := do
     else Spec.ConnAPI.check {} (specSteps "gcm" [(0, "H"), (1, "R8"), (2, "H"), (3, "W1")] obs)
   pure { model := model, spec := spec, trivial := !injected }
 
+/-- `Dialer.DialContext` to a peer that stalls in the handshake: the context that ends first (the
+caller's, or the one `dial` derives from the net.Dialer's Timeout / Deadline) is cancelled while
+`handshakeFn` runs — the model's `.handshake true` — and its error is what comes back. -/
+def judgeDial (ct ot : List String) : Option Verdict := do
+  let nd ← kv ct "nd"
+  let caller ← kv ct "caller"
+  let _ ← kv ct "stall"
+  let short := nd == "shortto" || nd == "shortdl"
+  guard (["none", "to", "dl", "both", "shortto", "shortdl"].contains nd)
+  let why : Spec.ConnAPI.DialEnd ←
+    match caller with
+    | "cancel" => some .callerCancel
+    | "pre" => some .callerCancel
+    | "deadline" => some .callerDeadline
+    | "never" => if short then some .dialerTimeout else none
+    | _ => none
+  -- (a caller that ends at about the same time as a short dialer bound is a race: not generated)
+  guard (!short || caller == "never")
+  let outs := runModel {} [.handshake true]
+  let render (s : String) : String :=
+    if s != "ctx" then s else match why with
+      | .callerCancel => "ctx" | .callerDeadline => "ctxdl" | .dialerTimeout => "timeout"
+  let model := s!"res={",".intercalate (outs.map render)} when=prompt"
+  let res := (kv ot "res").getD "?"
+  let prompt := kv ot "when" == some "prompt"
+  pure { model := model, spec := Spec.ConnAPI.checkDial why res prompt }
+
 def judge (c o : String) : Option Verdict :=
   let ct := tokens c
   let ot := tokens o
@@ -283,6 +316,7 @@ def judge (c o : String) : Option Verdict :=
   | some "api" => judgeAPI ct ot
   | some "cancel" => judgeCancel ct ot
   | some "early" => judgeEarly ct ot
+  | some "dial" => judgeDial ct ot
   | _ => none
 
 end Gotlcp.Oracle.C12
